@@ -61,7 +61,7 @@ def run(ctx: Context, col) -> None:
         _outside_loop(ctx, cls, loop, col)
         _measure(ctx, cls, col)
         _initial(ctx, cls, col)
-    col.floor("R8.1", 5)
+    col.floor("R8.1", 10)
     col.floor("R8.2", 5)
     col.floor("R8.3", 5)
     col.floor("R8.4", 5)
@@ -91,6 +91,8 @@ def _paths(ctx, cls, loop: SolveLoop, col):
     outside = [
         n for n in loop.cfg.stmts() if n.id not in loop.members and n is not loop.header and loop.reaches_step(n)
     ]
+    bok, bwhy = loop.bound_ok()
+    col.add("R8.1", construct, file, hl, bok, bwhy, text="trip count == max_iterations")
     ok = not bad_step and not outside
     detail = f"{len(paths)} paths through one iteration, each runs the step exactly once; no step outside the loop"
     if bad_step:
